@@ -22,12 +22,13 @@ AUDIT_IMPORTS = ["Props.C03"]
 NS = "Pysersic.Props.C03."
 OBLIGATIONS = [NS + t for t in [
     "repo_ramp_is_pi", "repo_ps_conv", "hat_int", "bilinear_int", "pixel_pointsource_integer", "old_addressing_violates",
-    "psfFft_unit", "unit_psf_convFft", "fourier_pointsource_integer", "psfFft_dc",
+    "psfFft_unit", "unit_psf_convFft", "fourier_pointsource_integer", "psfFft_dc", "conv_img_is_circular_convolution",
+    "repo_conv_img_is_circular_convolution", "unit_psf_returns_intrinsic", "pixel_scene_is_convolution",
 ]] + ["Pysersic.Props.C09.synth_shift", "Pysersic.Props.C09.pointsource_translate", "Pysersic.Render.convImg_add",
       "Pysersic.Render.convImg_smul"]
 MIRRORED_FILES = ["pysersic/rendering.py"]
 ASSUMPTIONS = [
-    "the DFT pipeline irfft2(rfft2(I)·PSF_fft) equals circular convolution with the re-centred stamp (classical convolution theorem): not re-proved, validated numerically by the tie (1e-9) and by the oracle against direct spatial convolution",
+    "the convolution theorem is proved for odd stamps with π in the ramps (Proofs/RenderConv.lean); for even-sized stamps (half-pixel Fourier shift) the pipeline is validated numerically by the tie (1e-9) and the oracle only",
     "jax.scipy.ndimage.map_coordinates(order=1, mode='constant') is modelled as zero-padded bilinear interpolation (validated by the tie)",
     "even-sized stamps and fractional positions: only the centroid clause (0.02 px) is checked, as the property states",
 ]
